@@ -377,7 +377,13 @@ int main(int argc, char **argv) {
     }
     // masked proc entries
     int kc = -2; { int fd = open("/proc/timer_list", O_RDONLY); if (fd >= 0) { char b8[8]; kc = (int)read(fd, b8, 8); close(fd); } else kc = -errno; }
-    n += snprintf(buf + n, sizeof buf - n, "},\"kcore_read\":%d}\n", kc);
+    // inherited descriptors other than stdio: a directory among them is a way out of the declared tree
+    n += snprintf(buf + n, sizeof buf - n, "},\"extra_fds\":[");
+    { int f1 = 1; for (int fd = 3; fd < 256; fd++) { struct stat st; if (fstat(fd, &st) != 0) continue;
+        int isdir = S_ISDIR(st.st_mode); int reach = 0;
+        if (isdir) { int t = openat(fd, "etc/hostname", O_RDONLY); if (t >= 0) { reach = 1; close(t); } else { t = openat(fd, "tmp", O_RDONLY | O_DIRECTORY); if (t >= 0) { reach = 2; close(t); } } }
+        n += snprintf(buf + n, sizeof buf - n, "%s[%d,%d,%d]", f1 ? "" : ",", fd, isdir, reach); f1 = 0; } }
+    n += snprintf(buf + n, sizeof buf - n, "],\"kcore_read\":%d}\n", kc);
     write(1, buf, n);
     _exit(0);
   } else if (!strcmp(c, "secstate")) {
